@@ -13,11 +13,12 @@ TRUSTED = [
     "measurement: the harness (no script installed, so the crate's real sockets are used) runs the real valve / quake / minecraft-java queries and raw exchanges through the crate-private sockets against an in-process loopback server thread (IPv4 and IPv6) and reports result, bytes seen by the server and wall-clock time; the model runs the same query on the equivalent script and yields the number of receives that wait for a full timeout",
     "write timeouts are applied but not exercised (a loopback peer never blocks a small write); scheduling slack 600 ms",
 ]
-RULE = ("HTTP (Eco through ureq) against a web server that is silent / stalls inside the head / stalls inside the body / refuses / closes, with explicit settings, with only some of the durations set, and with none (4 s defaults), TCP connects to a peer that drops the SYN (full accept queue) with connect timeouts of 250-1500 ms; Minecraft auto and legacy queries (five and three sockets in turn) against a peer that accepts and stays silent; UDP (valve, quake 3) and TCP (minecraft java) queries x IPv4 / IPv6 loopback x server silent from the start / after the first reply / refusing / closing x read timeout 150 / 300 ms (write timeout different from read) x retries 0..2; "
+RULE = ("HTTP (Eco through ureq) against a web server that is silent / stalls inside the head / stalls inside the body / refuses / closes, with explicit settings, with only some of the durations set, and with none (4 s defaults), TCP connects to a peer that drops the SYN (full accept queue) with connect timeouts of 250-1500 ms; Minecraft auto and legacy queries (five and three sockets in turn) against a peer that accepts and stays silent; UDP (valve, quake 3) and TCP (minecraft java) queries x IPv4 / IPv6 loopback x server silent from the start / after the first reply / after every challenge it hands out / refusing / closing x read timeout 150 / 300 ms (write timeout different from read) x retries 0..2; "
         "raw exchanges through UdpSocket / TcpSocket with payloads of 0, 1, 1024, 1025, 6144, 65487, 65488, 65507 bytes and requested sizes None / 65535; "
         "bounds: elapsed within [k*read - 60 ms, k*read + 600 ms] where k is the model's number of timed-out receives; non-trivial = k > 0 or payload > 1024; distinct by case bytes")
 
 INFO = (b"\xff\xff\xff\xff\x49\x11" + b"srv\x00map\x00dir\x00Game\x00" + b"\x0a\x00" + bytes([3, 16, 0, 0x64, 0x6c, 0, 1]) + b"1.0\x00" + b"\x00")
+CHALLENGE = b"\xff\xff\xff\xff\x41\x11\x22\x33\x44"
 QUAKE = b"\xff\xff\xff\xffstatusResponse\n\\sv_hostname\\h\\mapname\\m\\sv_maxclients\\8\n5 10 \"bob\"\n"
 
 
@@ -43,6 +44,9 @@ def gen_cases(tier, rng):
                 ts = {"connect": ms(1000), "read": ms(read), "write": ms(read * 5 + 700), "retries": retries}
                 specs.append(("valve-silent", 0, v6, ts, [], 0, b"", None))
                 specs.append(("valve-mid", 0, v6, ts, [INFO], 0, b"", None))
+                # every plain request is answered with a challenge, every challenged request with nothing:
+                # one attempt = one plain and one challenged request, and only the latter waits for the timeout
+                specs.append(("valve-challenge-then-silent", 0, v6, ts, [CHALLENGE, b""] * (retries + 3), 0, b"", None))
                 specs.append(("quake-silent", 1, v6, ts, [], 0, b"", None))
                 specs.append(("java-stall", 2, v6, ts, [], 0, b"", None))
                 specs.append(("java-partial", 2, v6, ts, [b"\x10\x00\x05abc"], 0, b"", None))
